@@ -10,6 +10,7 @@ import (
 	"net"
 	"net/http"
 	"os"
+	"strconv"
 	"strings"
 	"sync"
 	"sync/atomic"
@@ -313,12 +314,23 @@ func bridgeDriver(a *Args) {
 	}
 
 	cn := 0
-	runCase := func(bc bridgeCase, sig string) {
+	var cnMu sync.Mutex
+	runCase := func(bc bridgeCase, sig string, rng *rand.Rand) {
+		cnMu.Lock()
 		cn++
 		c := cn
+		cnMu.Unlock()
+		quiet := 5500 * time.Millisecond // quiet periods of the paces "long-reply" and "idle-before-close"
+		if f := strings.SplitN(bc.Pace, ":", 2); len(f) == 2 {
+			ms, _ := strconv.Atoi(f[1])
+			quiet = time.Duration(ms) * time.Millisecond
+			bc.Pace = f[0]
+		}
 		hx.Emit("Open", "c", c)
+		cnMu.Lock() // (one connection is set up at a time, so that the server side that appears is this one's)
 		cl, err := net.Dial("tcp", feAddr)
 		if err != nil {
+			cnMu.Unlock()
 			res.Bad("dial frontend: %v", err)
 			return
 		}
@@ -326,7 +338,9 @@ func bridgeDriver(a *Args) {
 		var sc net.Conn
 		select {
 		case sc = <-srv.conns:
+			cnMu.Unlock()
 		case <-time.After(10 * time.Second):
+			cnMu.Unlock()
 			res.Bad("server never saw the bridged connection")
 			cl.Close()
 			return
@@ -351,6 +365,10 @@ func bridgeDriver(a *Args) {
 		go func() { defer wg.Done(); client.write(upN, bc.Wseg) }()
 		go func() { defer wg.Done(); server.write(downN, bc.Wseg) }()
 		wg.Wait()
+		if bc.Pace == "idle-before-close" {
+			// nothing happens on the connection for longer than common time-outs; then it is closed
+			time.Sleep(quiet)
+		}
 		// a peer closes gracefully: it stops sending (FIN) and keeps reading until it sees the end of
 		// the stream itself, so that its own kernel never answers in-flight data with a reset
 		abortEnd := func(p *peer) {
@@ -374,7 +392,7 @@ func bridgeDriver(a *Args) {
 			go func() {
 				select {
 				case <-p.eof:
-				case <-time.After(12 * time.Second):
+				case <-time.After(12*time.Second + 2*quiet):
 				}
 				p.conn.Close()
 			}()
@@ -427,7 +445,15 @@ func bridgeDriver(a *Args) {
 				if (bc.Wseg == "1" || bc.Rbuf == "1" || bc.Rbuf == "7") && reply > 3000 {
 					reply = 3000
 				}
-				second.write(reply, bc.Wseg)
+				if bc.Pace == "long-reply" {
+					// the reply keeps flowing for longer than common time-outs after the request side was closed
+					for k := 0; k < 8; k++ {
+						second.write(1+reply/8, bc.Wseg)
+						time.Sleep(quiet / 7)
+					}
+				} else {
+					second.write(reply, bc.Wseg)
+				}
 				hx.Emit("PeerClose", "c", c, "d", second.outDir, "abortive", false)
 				halfClose(second.conn)
 				waitEOF(first)
@@ -461,7 +487,33 @@ func bridgeDriver(a *Args) {
 	for i, bc := range cases.Cases {
 		sig := fmt.Sprintf("bridge:%s/%s/%s/%s/%s/%s", bc.Closer, bc.Up, bc.Down, bc.Wseg, bc.Rbuf, bc.Pace)
 		hx.Reset(fmt.Sprintf("bridge-%d", i), sig)
-		runCase(bc, sig)
+		runCase(bc, sig, rng)
+		time.Sleep(30 * time.Millisecond)
+		hx.Emit("Final", "server_open", atomic.LoadInt64(&srv.open), "bridge_fds_leaked", fdsLeaked())
+	}
+	// connections on which little happens for longer than common time-outs, all at the same time: a reply that
+	// keeps flowing long after the request side was closed, and connections that are idle before they are closed
+	{
+		var quietCases []bridgeCase
+		for _, d := range pauseClasses() {
+			ms := fmt.Sprint(d.Milliseconds())
+			quietCases = append(quietCases,
+				bridgeCase{Closer: "client-half-reply", Up: "small", Down: "small", Wseg: "1024", Rbuf: "4096", Pace: "long-reply:" + ms},
+				bridgeCase{Closer: "server-half-reply", Up: "small", Down: "small", Wseg: "small", Rbuf: "1024", Pace: "long-reply:" + ms},
+				bridgeCase{Closer: "client", Up: "small", Down: "small", Wseg: "1024", Rbuf: "4096", Pace: "idle-before-close:" + ms},
+				bridgeCase{Closer: "server", Up: "small", Down: "none", Wseg: "small", Rbuf: "64k", Pace: "idle-before-close:" + ms},
+				bridgeCase{Closer: "client-then-server", Up: "none", Down: "small", Wseg: "1025", Rbuf: "1024", Pace: "idle-before-close:" + ms})
+		}
+		hx.Reset("bridge-quiet", "bridge:quiet-connections")
+		var qwg sync.WaitGroup
+		for i, bc := range quietCases {
+			qwg.Add(1)
+			go func(i int, bc bridgeCase) {
+				defer qwg.Done()
+				runCase(bc, fmt.Sprintf("bridge:%s/%s/%s/%s/%s/%s", bc.Closer, bc.Up, bc.Down, bc.Wseg, bc.Rbuf, bc.Pace), rand.New(rand.NewSource(int64(hx.Seed())*104729+int64(i))))
+			}(i, bc)
+		}
+		qwg.Wait()
 		time.Sleep(30 * time.Millisecond)
 		hx.Emit("Final", "server_open", atomic.LoadInt64(&srv.open), "bridge_fds_leaked", fdsLeaked())
 	}
